@@ -121,7 +121,7 @@ def fam_bounds(fam, targets, rng):
     return out
 
 
-def setup_lines(wd, fam, variant, merge, dupsort, failtok=-1, comp="none"):
+def setup_lines(wd, fam, variant, merge, dupsort, failtok=-1, comp="none", twice=False):
     """Script lines creating the sources and merger 0 over them. variant: 'readers' | 'user' | 'nested' | 'mixed'"""
     L = ["scratch " + wd]
     srcs = []
@@ -149,6 +149,8 @@ def setup_lines(wd, fam, variant, merge, dupsort, failtok=-1, comp="none"):
             L.append("m_add 1 " + x)
         L.append("m_init 0 %d %d %d" % (merge, failtok, dupsort))
         L.append("m_add 0 m:1")
+        if twice:
+            L.append("m_add 0 m:1")       # the same merger as two sources of the outer one: two of its iterators advance in turn
         for x in srcs[2:]:
             L.append("m_add 0 " + x)
     else:
